@@ -313,11 +313,22 @@ def http_loopback_problems(rng, R):
         msgs = []
         for mn, attr, cls, fields in message_type_classes():
             try:
-                msgs.append(cls(**{f: rng.choice([0, 1, "x", 2.5, True, None, [1, 2], "v3"]) for f in fields}))
+                msgs.append(cls(**{f: rng.choice([0, 1, "x", 2.5, True, None, [1, 2], "v3", float("inf"), float("-inf"), 2 ** 62, -1.5e300])
+                                   for f in fields}))
             except Exception:
                 pass
         rng.shuffle(msgs)
         msgs = msgs[:25]
+        # every loopback run carries the non-finite and extreme numbers (bounds and costs of the algorithms' messages)
+        for mn, attr, cls, fields in message_type_classes()[:40]:
+            if len(fields) >= 2:
+                try:
+                    special = [float("inf"), float("-inf"), 2 ** 62, -1.5e300, [float("-inf"), 1], {"k": float("inf")}]
+                    msgs.append(cls(**{f: special[j % len(special)] for j, f in enumerate(fields)}))
+                    msgs.append(cls(**{f: special[(j + 1) % len(special)] for j, f in enumerate(fields)}))
+                    break
+                except Exception:
+                    continue
         try:
             from pv.checks import c25
 
